@@ -46,7 +46,7 @@ GETTERS = {
     "Study.trials": ("trials", True),
     "Study.get_trials(deepcopy=True)": ("trials", True),
     "Study.get_trials(deepcopy=False)": ("trials", False),
-    "Study.best_trial": ("best", True),
+    "Study.best_trial": ("sbest", True),       # constrained studies: best FEASIBLE trial (which one: C12)
     "Study.best_trials": ("pareto", True),
     "Study.user_attrs": ("sattr", True),
     "Study.system_attrs": ("sattr", True),
@@ -66,6 +66,16 @@ STATE_SETS = [["ALL"], ["WAITING"], ["COMPLETE", "RUNNING"], ["RUNNING"], ["COMP
 SIG_F9 = "live-Trial-write-changes-object-read-without-copy"
 SIG_SATTR = "storage-study-attrs-dict-changes-on-set_study_attr"
 TOUR_PARTS = 4
+# Constrained optimisation: samplers store a list of floats under the system attr "constraints"; Study.best_trial /
+# best_trials take other code paths then (best FEASIBLE trial, taken from get_trials(deepcopy=False)).  The attribute
+# pool of storage_driver has no such list, so the two values are appended to the pool of THIS process (projection
+# stays a bit-exact pool lookup; storage_driver.py itself is not modified).
+CONSTRAINTS_KEY = "constraints"
+for _v in ([-1.0], [1.0]):
+    if not any(type(a) is list and a == _v and all(type(x) is float for x in a) for a in sd.ATTRS):
+        sd.ATTRS.append(_v)
+TOK_FEASIBLE = next(i for i, a in enumerate(sd.ATTRS) if a == [-1.0] and type(a[0]) is float)
+TOK_INFEASIBLE = next(i for i, a in enumerate(sd.ATTRS) if a == [1.0] and type(a[0]) is float)
 FIXED_PARAMS_TOK = 11      # sd.ATTRS[11] == {"a": {}}: the params dict handed to enqueue_trial
 
 
@@ -109,7 +119,9 @@ def vias_for(g, f, states):
         return {"ua": ["storage.get_trial_user_attrs"], "sa": ["storage.get_trial_system_attrs"],
                 "params": ["storage.get_trial_params"]}[f]
     if g == "best":
-        return ["storage.get_best_trial", "Study.best_trial"]
+        return ["storage.get_best_trial"]
+    if g == "sbest":
+        return ["Study.best_trial"]
     if g == "pareto":
         return ["Study.best_trials"]
     raise KeyError(g)
@@ -750,6 +762,7 @@ def study_tour(j=0, m=1):
         {"a": "S.set_sa", "s": 1, "key": "k2", "v": 6},
         {"a": "S.set_ua", "s": 1, "key": "k1", "v": 10},
         {"a": "T.suggest", "slot": 1, "name": "x", "d": D_FLOAT, "v": 0},
+        {"a": "T.set_sa", "slot": 0, "key": CONSTRAINTS_KEY, "v": TOK_FEASIBLE},
         {"a": "S.tell", "slot": 0, "state": "COMPLETE", "values": [0]},
         {"a": "S.enqueue", "s": 1, "ua": {}},
         {"a": "T.set_ua", "slot": 1, "key": "k1", "v": 3},
@@ -758,7 +771,10 @@ def study_tour(j=0, m=1):
             (b([2]) if j == 0 else []) + [{"a": "T.suggest", "slot": 2, "name": "x", "d": D_FLOAT, "v": 3}] +
             (b([2]) if j == 1 % m else []) + [{"a": "T.report", "slot": 2, "step": 0, "v": 2}] +
             (b([2]) if j == 2 % m else []) + [{"a": "T.set_ua", "slot": 2, "key": "k1", "v": 4}] +
-            (b([2]) if j == 3 % m else [])},
+            (b([2]) if j == 3 % m else []) +
+            # the trial with the best value (-1.5) is infeasible, slot 0 (0.0) is feasible: from here on
+            # Study.best_trial is on its constrained fallback path
+            [{"a": "T.set_sa", "slot": 2, "key": CONSTRAINTS_KEY, "v": TOK_INFEASIBLE}]},
         {"a": "S.ask", "s": 1, "slot": 3},
         {"a": "S.add_trial", "s": 1, "tm": TM_WAITING},
     ]):
@@ -785,9 +801,12 @@ def _random_read(r, n_s, n_t, slots, study_level):
 def with_reads(r, writes, study_level=True):
     """storage-level history (ops of storage_gen / StorageMC vocabulary) with reads and modifications inserted"""
     ops, n_s, n_t = [], 0, 0
+    constrained = r.random() < 0.4
     for op in writes:
         if op["a"].startswith("get_"):
             continue
+        if constrained and op["a"] == "set_trial_sa" or (op["a"] == "set_trial_sa" and r.random() < 0.2):
+            op = dict(op, key=CONSTRAINTS_KEY, v=r.choice([TOK_FEASIBLE, TOK_INFEASIBLE]))
         ops.append(op)
         n_s += op["a"] == "create_study"
         n_t += op["a"] == "create_trial"
@@ -801,6 +820,8 @@ def with_reads(r, writes, study_level=True):
         if r.random() < 0.08:
             ops.append({"a": "mutate", "pick": r.randrange(1000), "how": r.randrange(64)})
     ops.append({"a": "mutate", "pick": r.randrange(1000), "how": r.randrange(64)})
+    if study_level and n_s:
+        ops += [rd("Study.best_trial", s=r.randint(1, n_s)), {"a": "mutate", "via": "Study.best_trial", "how": r.randrange(64)}]
     return ops
 
 
@@ -812,6 +833,14 @@ def random_session(r, n_ops=26):
     n_t = 0
     waiting = {}      # study -> count of WAITING trials (aiming only)
     pool_x = [0, 2, 3]
+    constrained = r.random() < 0.5     # trials carry the "constraints" system attr a constrained sampler stores
+
+    def constraint(slot):
+        """the attr is written once per trial, before it is told (as samplers do in after_trial)"""
+        if not constrained or slots[slot].get("constr"):
+            return []
+        slots[slot]["constr"] = True
+        return [{"a": "T.set_sa", "slot": slot, "key": CONSTRAINTS_KEY, "v": r.choice([TOK_FEASIBLE, TOK_INFEASIBLE])}]
 
     def reads(k):
         return [_random_read(r, len(studies), n_t, list(range(len(slots))), True) for _ in range(k)]
@@ -863,6 +892,8 @@ def random_session(r, n_ops=26):
             if tm["state"] == "COMPLETE":
                 tm["values"] = [r.choice(sd.FINITE) for _ in range(nd)]
                 tm["params"]["x"]["v"] = r.choice(pool_x)
+                if constrained:
+                    tm["sa"][CONSTRAINTS_KEY] = r.choice([TOK_FEASIBLE, TOK_INFEASIBLE])
             else:
                 waiting[s] = waiting.get(s, 0) + 1
             ops.append({"a": "S.add_trial", "s": s, "tm": tm})
@@ -875,6 +906,7 @@ def random_session(r, n_ops=26):
             slots[slot]["live"] = False
             nd = len(studies[slots[slot]["s"] - 1])
             if r.random() < 0.7:
+                ops += constraint(slot)
                 ops.append({"a": "S.tell", "slot": slot, "state": "COMPLETE",
                             "values": [r.choice(sd.FINITE + [1000, -1000]) for _ in range(nd)]})
             else:
@@ -889,7 +921,7 @@ def random_session(r, n_ops=26):
                 waiting[s] -= 1
             else:
                 n_t += 1
-            inner = reads(2) + inner_ops(slot, s)
+            inner = reads(2) + inner_ops(slot, s) + constraint(slot)
             slots[slot]["live"] = False
             ops.append({"a": "S.optimize", "s": s, "slot": slot, "inner": inner,
                         "values": [r.choice(sd.FINITE) for _ in range(len(studies[s - 1]))]})
@@ -911,6 +943,11 @@ def random_session(r, n_ops=26):
         if r.random() < 0.5:
             ops += reads(r.randint(1, 3))
     ops.append({"a": "mutate", "pick": r.randrange(1000), "how": r.randrange(64)})
+    if constrained:
+        # whatever path best_trial / best_trials took (plain, or the constrained fallback): the result is the caller's
+        for s in range(1, len(studies) + 1):
+            for via in ("Study.best_trial", "Study.best_trials"):
+                ops += [rd(via, s=s), {"a": "mutate", "via": via, "how": r.randrange(64)}]
     ops.append({"a": "post"})
     return ops
 
